@@ -34,6 +34,9 @@ Programs (JSON-able)
           method= ret | boom | two (needs two arguments, gets one) | nosuch (not registered) | gwait<g> | gopen<g>
   accept: {"stage": "accept", "pool": null | [max, min], "selfopen": false, "gates": 1, "close": "drain" | "inflight",
            "reqs": [[kind, gate], ...]}      kind = ret | raise | gwait | gopen
+           optional "again": [{"server": "same" | "new", "reqs": [...], "close": ..., "selfopen": ...}, ...] — further life
+           cycles on the SAME user-supplied pool (pool != null): after server_close() the accept thread of the next cycle
+           calls pool.start() and hands the pool to a new server (or keeps the closed one); see AcceptRun.
 """
 import json
 
@@ -70,6 +73,7 @@ class StageRun(object):
         self.ctl_opened = 0
         self.selfopen = bool(program.get("selfopen"))
         self.status = None
+        self.cycle = 0
         self.leaked = 0
         self.pool = None
         self.notes = []       # human-readable events (posts, replies) for the replay print
@@ -174,26 +178,35 @@ class StageRun(object):
                 self.setup()
                 s.after_step = self.after_step
                 s.on_quiescent = self.on_quiescent
-                self.phase = "main"
-                self.spawn_primaries()
-                if self.skip_drain():
-                    st = self.run_until(lambda: all(t.dead for t in self.primaries))
-                else:
-                    st = self.run_until(lambda: self.drained)
-                    if st == "done" and not self.drained:
-                        self.drained = True
-                        self.check_drained("every thread has ended")
+                st = "done"
+                for k in range(self.ncycles()):
+                    # one life cycle: main / idle / close (a program has one, unless its pool is reused: AcceptRun)
+                    self.cycle = k
+                    self.phase = "main"
+                    self.drained = False
+                    self.begin_cycle(k)
+                    if self.skip_drain():
+                        st = self.run_until(lambda: all(t.dead for t in self.primaries))
+                    else:
+                        st = self.run_until(lambda: self.drained)
+                        if st == "done" and not self.drained:
+                            self.drained = True
+                            self.check_drained("every thread has ended")
+                        if st == "done":
+                            self.phase = "idle"
+                            target = self.nquiet + len(s.live()) + 1
+                            st = self.run_until(lambda: self.nquiet >= target)
                     if st == "done":
-                        self.phase = "idle"
-                        target = self.nquiet + len(s.live()) + 1
-                        st = self.run_until(lambda: self.nquiet >= target)
-                if st == "done":
-                    self.phase = "close"
-                    td = s.spawn("c0", self.teardown_main)
-                    st = self.run_until(lambda: td.dead)
-                    if st == "done":
-                        self.after_close(td)
-                        st = self.run_until(None)
+                        self.phase = "close"
+                        td = s.spawn("c%d" % k, self.teardown_main)
+                        st = self.run_until(lambda: td.dead)
+                        if st == "done":
+                            self.after_close(td)
+                            st = self.run_until(None)
+                            if st == "done":
+                                self.end_cycle(k)
+                    if st != "done" or self.violations:
+                        break
                 self.status = st
                 self.final_checks()
             finally:
@@ -203,6 +216,15 @@ class StageRun(object):
 
     def skip_drain(self):
         return False
+
+    def ncycles(self):
+        return 1
+
+    def begin_cycle(self, k):
+        self.spawn_primaries()
+
+    def end_cycle(self, k):
+        pass
 
     def cleanup(self):
         pass
@@ -407,11 +429,29 @@ class NotifRun(StageRun):
 
 
 class AcceptRun(StageRun):
+    """
+    Life cycles of the program: cycle 0 = `reqs` / `close` / `selfopen` of the program itself; cycle k >= 1 =
+    program["again"][k-1] = {"server": "same" | "new", "reqs": [...], "close": ..., "selfopen": ...} — the USER-SUPPLIED pool
+    is reused: the managed accept thread a<k> first calls pool.start() on the pool that the previous server_close() stopped,
+    then (server "new") constructs a second PooledJSONRPCServer on that pool, or keeps the closed one ("same":
+    process_request needs no socket), hands it the requests of the cycle; then c<k> calls server_close().  Tokens number the
+    requests of all cycles consecutively.
+    """
     PROP = "C12"
 
     def __init__(self, program, chooser, **kw):
         StageRun.__init__(self, program, chooser, **kw)
-        self.accepted = []    # tokens whose process_request returned
+        self.cycles = [{"reqs": program["reqs"], "close": program.get("close"), "selfopen": bool(program.get("selfopen")),
+                        "server": "new"}] + [dict(c) for c in program.get("again", [])]
+        self.reqinfo = {}     # token -> (cycle, kind, gate)
+        tok = 0
+        for k, c in enumerate(self.cycles):
+            c["base"] = tok
+            for kind, gate in c["reqs"]:
+                self.reqinfo[tok] = (k, kind, gate)
+                tok += 1
+        self.accepted = []    # tokens of the current cycle whose process_request returned
+        self.servers = []
         self.server = None
         self.close_returned = False
         self.n_at_close = None
@@ -426,20 +466,16 @@ class AcceptRun(StageRun):
         self.violate("request-twice", "request %d has been handled %d times (by %r)"
                      % (tok, len(self.execs[tok]), [r for r, _ in self.execs[tok]]))
 
-    def skip_drain(self):
-        return self.program.get("close") == "inflight"
+    def ncycles(self):
+        return len(self.cycles)
 
-    def setup(self):
-        p = self.program
-        user = None
-        if p.get("pool") is not None:
-            user = tp.ThreadPool(p["pool"][0], p["pool"][1], timeout=60)
-            user.start()
-        self.server = S.PooledJSONRPCServer(("127.0.0.1", 0), logRequests=False, bind_and_activate=False,
-                                            config=jsonrpclib.config.Config(), thread_pool=user)
-        self.pool = self.server._PooledJSONRPCServer__request_pool
-        self.pool._done_event.kind = "event"
+    def skip_drain(self):
+        return self.cycles[self.cycle]["close"] == "inflight"
+
+    def make_server(self, user):
         run = self
+        server = S.PooledJSONRPCServer(("127.0.0.1", 0), logRequests=False, bind_and_activate=False,
+                                       config=jsonrpclib.config.Config(), thread_pool=user)
 
         def stub(request, client_address):
             # stands for socketserver's process_request_thread (finish_request + shutdown_request of that connection)
@@ -447,17 +483,45 @@ class AcceptRun(StageRun):
             if client_address != ("fake", tok):
                 run.violate("wrong-arguments", "handler of request %d got client address %r" % (tok, client_address))
             return run.body(tok, kind, gate)
-        self.server.process_request_thread = stub
+        server.process_request_thread = stub
+        self.servers.append(server)
+        self.server = server
+        return server
 
-    def spawn_primaries(self):
-        self.primaries.append(self.s.spawn("a0", self.accept_main))
+    def setup(self):
+        p = self.program
+        user = None
+        if p.get("pool") is not None:
+            user = tp.ThreadPool(p["pool"][0], p["pool"][1], timeout=60)
+            user.start()
+        self.make_server(user)
+        self.pool = self.server._PooledJSONRPCServer__request_pool
+        self.pool._done_event.kind = "event"
 
-    def accept_main(self):
+    def begin_cycle(self, k):
+        self.accepted = []
+        self.close_returned = False
+        self.n_at_close = None
+        self.selfopen = self.cycles[k]["selfopen"]
+        self.primaries.append(self.s.spawn("a%d" % k, lambda: self.accept_main(k)))
+
+    def accept_main(self, k):
         s = self.s
-        for tok, (kind, gate) in enumerate(self.program["reqs"]):
+        cyc = self.cycles[k]
+        if k:
+            # the user starts its pool again and hands it to a server
+            s.yield_op("call.pool_start")
+            kk, v = impl.outcome(self.pool.start)
+            if kk == "err":
+                self.violate("pool-start-raised", "pool.start() of the stopped user pool raised %r" % (v,))
+                return
+            if cyc.get("server") == "new":
+                self.make_server(self.pool)
+        for i, (kind, gate) in enumerate(cyc["reqs"]):
+            tok = cyc["base"] + i
             s.yield_op("call.process_request", arg=tok)
-            k, v = impl.outcome(self.server.process_request, (kind, tok, gate), ("fake", tok))
-            if k == "err":
+            kk, v = impl.outcome(self.server.process_request, (kind, tok, gate), ("fake", tok))
+            if kk == "err":
                 self.violate("process_request-raised", "process_request of request %d raised %r" % (tok, v))
             else:
                 self.accepted.append(tok)
@@ -467,8 +531,10 @@ class AcceptRun(StageRun):
         for tok in self.accepted:
             got = len(self.execs.get(tok, []))
             if got == 0:
-                self.violate("request-lost", "request %d (%s) was accepted by process_request but never handled, when %s; pool: %s"
-                             % (tok, self.program["reqs"][tok][0], why, self.pool_state()))
+                self.violate("request-lost", "request %d (%s) was accepted by process_request%s but never handled, when %s; pool: %s"
+                             % (tok, self.reqinfo[tok][1],
+                                " of life cycle %d of the reused pool (restarted with pool.start())" % (self.cycle + 1) if self.cycle else "",
+                                why, self.pool_state()))
 
     def teardown_main(self):
         self.s.yield_op("call.server_close")
@@ -488,6 +554,18 @@ class AcceptRun(StageRun):
             self.violate("pool-running", "request pool not stopped after server_close()")
         self.n_at_close = sum(len(v) for v in self.execs.values())
 
+    def end_cycle(self, k):
+        """server_close() has returned and nothing can run any more: every worker of the stopped pool has terminated."""
+        if not self.close_returned:
+            return
+        alive = [t.role for t in self.s.threads if not t.dead]
+        if alive:
+            self.violate("workers-alive", "threads still alive after server_close(): %r" % alive)
+        now = sum(len(v) for v in self.execs.values())
+        if self.n_at_close is not None and now != self.n_at_close:
+            self.violate("handled-after-close", "%d handler executions began after server_close() had returned"
+                         % (now - self.n_at_close))
+
     def final_checks(self):
         cr = self.crashed()
         if cr:
@@ -500,22 +578,13 @@ class AcceptRun(StageRun):
             else:
                 self.violate("deadlock", "%s while requests are pending: threads at %r; pool: %s" % (st, self.where(), self.pool_state()))
                 self.check_drained("the run ended in a %s" % st)
-            return
-        if st == "done" and self.close_returned:
-            alive = [t.role for t in self.s.threads if not t.dead]
-            if alive:
-                self.violate("workers-alive", "threads still alive after server_close(): %r" % alive)
-            now = sum(len(v) for v in self.execs.values())
-            if self.n_at_close is not None and now != self.n_at_close:
-                self.violate("handled-after-close", "%d handler executions began after server_close() had returned"
-                             % (now - self.n_at_close))
 
     def cleanup(self):
-        try:
-            if self.server is not None:
-                self.server.socket.close()
-        except Exception:  # noqa: BLE001
-            pass
+        for server in self.servers:
+            try:
+                server.socket.close()
+            except Exception:  # noqa: BLE001
+                pass
 
 
 RUNNERS = {"notif": NotifRun, "accept": AcceptRun}
@@ -650,8 +719,43 @@ def gen_accept_program(rng, pool="random"):
             else:
                 reqs.append(["gopen", g])
                 gates.add(g)
-    return {"stage": "accept", "pool": pool, "selfopen": selfopen, "gates": (max(gates) + 1) if gates else 0,
-            "close": "inflight" if (not selfopen and rng.random() < 0.3) else "drain", "reqs": reqs}
+    program = {"stage": "accept", "pool": pool, "selfopen": selfopen, "gates": (max(gates) + 1) if gates else 0,
+               "close": "inflight" if (not selfopen and rng.random() < 0.3) else "drain", "reqs": reqs}
+    if pool is not None and rng.random() < 0.35:
+        gen_reuse(rng, program)
+    return program
+
+
+def gen_reuse(rng, program):
+    """A user-supplied pool with a life longer than one server: the first life cycle mostly ends with requests in flight or
+    still queued; one or two further life cycles (pool.start(), the same or a new server) — a lone request, several, and
+    (max >= 2) handlers that depend on each other, which only a pool that still grows as a fresh one serves."""
+    mx = program["pool"][0]
+    if not program["selfopen"] and rng.random() < 0.7:
+        program["close"] = "inflight"
+        if rng.random() < 0.5 and not any(r[0] == "gwait" for r in program["reqs"]):
+            g = 0
+            program["reqs"].insert(rng.randint(0, len(program["reqs"])), ["gwait", g])
+            program["gates"] = max(program["gates"], g + 1)
+    again = []
+    for k in range(1, rng.choice([2, 2, 3])):
+        g = 2 * k                # gates of their own: those of the earlier life cycles are open by now
+        r = rng.random()
+        selfopen = False
+        if mx >= 2 and r < 0.35:
+            reqs = [["gwait", g]] * rng.randint(1, min(mx, 3) - 1) + [["gopen", g]]
+            reqs = [list(x) for x in reqs]
+            selfopen = True
+        elif r < 0.6:
+            reqs = [[rng.choice(["ret", "raise"]), None]]
+        else:
+            reqs = [rng.choice([["ret", None], ["ret", None], ["raise", None], ["gwait", g]]) for _ in range(rng.randint(1, 4))]
+            reqs = [list(x) for x in reqs]
+        if any(x[1] is not None for x in reqs):
+            program["gates"] = max(program["gates"], g + 1)
+        again.append({"server": rng.choice(["new", "new", "same"]), "reqs": reqs, "selfopen": selfopen,
+                      "close": "inflight" if (not selfopen and rng.random() < 0.4) else "drain"})
+    program["again"] = again
 
 
 def small_notif_programs():
@@ -683,6 +787,14 @@ def small_accept_programs():
         P([["gwait", 0], ["ret", None]], gates=1, close="inflight")
         if pool is None or pool[0] >= 2:
             P([["gwait", 0], ["gopen", 0]], gates=1, selfopen=True)
+    # a user-supplied pool reused by a second life cycle (appended: the quick tier's DFS floor keeps its first two programs)
+    for pool in [[1, 0], [2, 0], [2, 1]]:
+        for server in ("new", "same"):
+            out.append({"stage": "accept", "pool": pool, "selfopen": False, "gates": 1, "close": "inflight", "reqs": [["gwait", 0]],
+                        "again": [{"server": server, "reqs": [["ret", None]], "selfopen": False, "close": "drain"}]})
+        if pool[0] >= 2:
+            out.append({"stage": "accept", "pool": pool, "selfopen": False, "gates": 3, "close": "inflight", "reqs": [["gwait", 0]],
+                        "again": [{"server": "new", "reqs": [["gwait", 2], ["gopen", 2]], "selfopen": True, "close": "drain"}]})
     return out
 
 
@@ -739,6 +851,13 @@ def smaller_programs(program):
                         out.append(dict(program, threads=ths2))
     else:
         reqs = program["reqs"]
+        again = program.get("again", [])
+        if again:
+            out.append(dict(program, again=again[:-1]) if len(again) > 1 else dict((k, v) for k, v in program.items() if k != "again"))
+            for n, c in enumerate(again):
+                for k in range(len(c["reqs"])):
+                    if len(c["reqs"]) > 1:
+                        out.append(dict(program, again=again[:n] + [dict(c, reqs=c["reqs"][:k] + c["reqs"][k + 1:])] + again[n + 1:]))
         for k in range(len(reqs)):
             if len(reqs) > 1:
                 out.append(dict(program, reqs=reqs[:k] + reqs[k + 1:]))
@@ -826,8 +945,15 @@ def describe(program):
         print("PooledJSONRPCServer(bind_and_activate=False), request pool: %s; close: %s%s" % (
             "default ThreadPool(30, 0)" if program["pool"] is None else "user ThreadPool(%d, %d), started" % tuple(program["pool"]),
             program.get("close"), "; gates are opened by handlers only" if program.get("selfopen") else ""))
-        for i, rq in enumerate(program["reqs"]):
-            print("  a0: process_request(request %d: handler %s%s)" % (i, rq[0], "" if rq[1] is None else " gate %d" % rq[1]))
+        n = 0
+        for k, c in enumerate([program] + list(program.get("again", []))):
+            if k:
+                print("  -- life cycle %d of the same pool: a%d calls pool.start() and hands the pool to %s; close: %s%s" % (
+                    k + 1, k, "a NEW PooledJSONRPCServer" if c.get("server") == "new" else "the SAME (closed) server", c.get("close"),
+                    "; gates are opened by handlers only" if c.get("selfopen") else ""))
+            for rq in c["reqs"]:
+                print("  a%d: process_request(request %d: handler %s%s)" % (k, n, rq[0], "" if rq[1] is None else " gate %d" % rq[1]))
+                n += 1
 
 
 def replay(payload_obj, prop=None):
@@ -870,7 +996,8 @@ def features(program):
                     for e in op[1]:
                         ms.add(e[0] + ":" + (e[2] if e[0] == "n" else e[1] if e[0] == "c" else "bad")[:5] + ("+b" if op[2] else ""))
         return (program["max"], program["min"], len(program["threads"]), program["selfopen"], program["custom"], ",".join(sorted(ms)))
-    return (str(program["pool"]), program["selfopen"], program["close"], ",".join(r[0] for r in program["reqs"]))
+    reuse = tuple((c.get("server"), c.get("selfopen"), c.get("close"), ",".join(r[0] for r in c["reqs"])) for c in program.get("again", []))
+    return (str(program["pool"]), program["selfopen"], program["close"], ",".join(r[0] for r in program["reqs"])) + reuse
 
 
 class Stage(object):
@@ -895,6 +1022,14 @@ class Stage(object):
                              "steps": len(r.s.trace)} if self.runs <= 2 else None,
                   nontrivial_key=(self.label,) + features(program) + (r.status, min(sw // 8, 6)),
                   kind="%s/%s/%s" % (self.label, chooser_name, r.status))
+        if program.get("again"):
+            h = getattr(ctx, "hist", None)
+            if h is not None:
+                h["%s/pool-reused/pool(max=%d,min=%d)" % ((self.label,) + tuple(program["pool"]))] += 1
+                h["%s/pool-reused/first-close:%s/life-cycles:%d" % (self.label, program.get("close"), 1 + len(program["again"]))] += 1
+                for c in program["again"]:
+                    h["%s/pool-reused/next:%s-server%s" % (self.label, c.get("server"),
+                                                          "/dependent-handlers" if c.get("selfopen") else "")] += 1
         for v in r.violations:
             if v["key"] in self.seen:
                 self.seen[v["key"]] += 1
